@@ -552,8 +552,11 @@ pub(crate) async fn get_one_term(
 
     // fetch the range from blob store and deserialize the chunks
     // then put into the cache if used
+    // the single-flight key must identify the bytes that are downloaded: the url AND the url range
+    // (two fetch ranges of one xorb may share the url and differ only in the Range header)
+    let single_flight_key = format!("{}#{}-{}", fetch_term.url, fetch_term.url_range.start, fetch_term.url_range.end);
     let (mut data, chunk_byte_indices) = range_download_single_flight
-        .work_dump_caller_info(&fetch_term.url, download_range(http_client, fetch_term.clone(), term.hash))
+        .work_dump_caller_info(&single_flight_key, download_range(http_client, fetch_term.clone(), term.hash))
         .await?;
 
     // now write it to cache, the whole fetched term
